@@ -88,7 +88,7 @@ def gen_constants(seed, rich=False):
         us[0]["eps"] = min(1, minports)
         adopts.append([{"order": "o1", "name": "g1", "units": us}])
     return {"shapes": shapes, "invs": invs, "cfgs": cfgs, "adopts": adopts,
-            "orders": ["o1", "o2"], "names": ["g1", "g2"] if rich else ["g1"]}
+            "orders": ["o1", "o2"], "names": ["g1", "g2"] if rich else ["g1"], "event_names": ["g1", "g2"]}
 
 
 def constants_module(name, c):
@@ -104,6 +104,7 @@ def constants_module(name, c):
         "EXTENDS MC_Inventory",
         "G_Orders == " + _tla_set(['"%s"' % o for o in c["orders"]]),
         "G_Names == " + _tla_set(['"%s"' % o for o in c["names"]]),
+        "G_EventNames == " + _tla_set(['"%s"' % o for o in c["event_names"]]),
         "G_ReqShapes == " + shapes,
         "G_InvChoices == " + invs,
         "G_CfgChoices == " + cfgs,
@@ -113,7 +114,7 @@ def constants_module(name, c):
 
 def cfg_text(prefix, max_resv, max_steps, export=True, impl="intended"):
     lines = ["SPECIFICATION Spec", "CONSTANTS"]
-    for k in ["Orders", "Names", "ReqShapes", "InvChoices", "CfgChoices", "AdoptChoices"]:
+    for k in ["Orders", "Names", "EventNames", "ReqShapes", "InvChoices", "CfgChoices", "AdoptChoices"]:
         lines.append("    %s <- %s_%s" % (k, prefix, k))
     lines += ["    MaxResv = %d" % max_resv, "    MaxSteps = %d" % max_steps, '    Impl = "%s"' % impl,
               "VIEW view",
@@ -174,37 +175,41 @@ def dedupe(scripts):
 # ---------------------------------------------------------------------------------------------------------
 # J2 replay on the real code
 
-def replay(vh, scripts, workdir, nproc, tag, timeout):
-    """Run the scripts on the real service in nproc harness processes; returns [(script file, trace file)]."""
-    nproc = max(1, min(nproc, len(scripts)))
-    shards = [[] for _ in range(nproc)]
-    # scripts with Timer steps wait for the real poll timer: spread them evenly
-    order = sorted(range(len(scripts)), key=lambda i: -sum(1 for s in scripts[i]["steps"] if s["a"] == "Timer"))
-    for k, i in enumerate(order):
-        shards[k % nproc].append(scripts[i])
-    procs = []
-    for k, shard in enumerate(shards):
-        sf = os.path.join(workdir, "%s-scripts-%d.ndjson" % (tag, k))
-        tf = os.path.join(workdir, "%s-trace-%d.ndjson" % (tag, k))
+def script_key(s):
+    return json.dumps([s["cfg"], s.get("adopt", []), s["steps"]], sort_keys=True)
+
+
+def replay(vh, scripts, workdir, nproc, tag, timeout, nchunks=None):
+    """Run the scripts on the real service in a pool of harness processes. Scripts are sorted and cut into
+    contiguous chunks, so that recordings sharing a prefix end up in the same trace file. Returns trace files."""
+    scripts = sorted(scripts, key=script_key)
+    nchunks = max(1, min(nchunks or nproc, len(scripts)))
+    size = (len(scripts) + nchunks - 1) // nchunks
+    jobs = []
+    for k in range(nchunks):
+        chunk = scripts[k * size:(k + 1) * size]
+        if not chunk:
+            continue
+        sf = os.path.join(workdir, "%s-scripts-%03d.ndjson" % (tag, k))
+        tf = os.path.join(workdir, "%s-trace-%03d.ndjson" % (tag, k))
         with open(sf, "w") as fh:
-            for s in shard:
-                fh.write(json.dumps(s) + "\n")
-        p = subprocess.Popen([vh, "inventory", "run", "-scripts", sf, "-out", tf, "-timer-ms", "5"],
-                             stdout=subprocess.PIPE, stderr=subprocess.STDOUT)
-        procs.append((p, sf, tf))
-    out = []
+            for sc in chunk:
+                fh.write(json.dumps(sc) + "\n")
+        jobs.append((sf, tf))
     deadline = time.time() + timeout
-    for p, sf, tf in procs:
-        try:
-            txt, _ = p.communicate(timeout=max(1, deadline - time.time()))
-        except subprocess.TimeoutExpired:
-            for q, _, _ in procs:
-                q.kill()
+
+    def one(job):
+        sf, tf = job
+        left = deadline - time.time()
+        if left <= 0:
             raise vlib.Inconclusive("harness replay timed out after %ss" % timeout)
-        if p.returncode != 0:
-            raise vlib.Inconclusive("harness failed (rc=%s): %s" % (p.returncode, txt.decode("utf-8", "replace")[-3000:]))
-        out.append((sf, tf))
-    return out
+        rc, out = vlib.run([vh, "inventory", "run", "-scripts", sf, "-out", tf, "-timer-ms", "5"], timeout=left)
+        if rc != 0:
+            raise vlib.Inconclusive("harness failed (rc=%s): %s" % (rc, out[-3000:]))
+        return tf
+
+    with concurrent.futures.ThreadPoolExecutor(max_workers=nproc) as ex:
+        return list(ex.map(one, jobs))
 
 
 def free_run(vh, workdir, seed, runs, ops, nproc, timeout):
@@ -233,42 +238,124 @@ def free_run(vh, workdir, seed, runs, ops, nproc, timeout):
 # ---------------------------------------------------------------------------------------------------------
 # J3 judge recorded traces with TLC
 
-def judge_file(trace_file, timeout, impl="intended"):
-    nlines = sum(1 for _ in open(trace_file))
+def build_tree(trace_files, tree_file, merge=True):
+    """Merge recorded traces into a prefix tree: equal recorded prefixes (same lines, same order) are judged once.
+    Writes one record [parent, kids, e] per node (record 1 is the root); returns (nodes, lines). With merge=False
+    recordings of different scripts are kept apart (used by the binding self-test)."""
+    parent = [0, 0]
+    events = [None, '{"ev": "root"}']
+    kids = [None, []]
+    index = {}
+    nlines = 0
+    for f in trace_files:
+        cur = 1
+        for raw in open(f):
+            raw = raw.strip()
+            if not raw:
+                continue
+            nlines += 1
+            if '"reset"' in raw:
+                e = json.loads(raw)
+                if e["ev"] == "reset":
+                    cur = 1
+                    if merge:
+                        keyed = dict(e)
+                        keyed.pop("script", None)
+                        raw_key = json.dumps(keyed, sort_keys=True)
+                    else:
+                        raw_key = raw
+                    key = (1, raw_key)
+                else:
+                    key = (cur, raw)
+            else:
+                key = (cur, raw)         # the harness writes keys in a fixed order: the text identifies the line
+            k = index.get(key)
+            if k is None:
+                k = len(parent)
+                parent.append(cur)
+                events.append(raw)
+                kids.append([])
+                kids[cur].append(k)
+                index[key] = k
+            cur = k
+    with open(tree_file, "w") as fh:
+        for k in range(1, len(parent)):
+            fh.write('{"parent": %d, "kids": %s, "e": %s}\n' % (parent[k], json.dumps(kids[k]), events[k]))
+    return len(parent) - 1, nlines
+
+
+def path_lines(tree_file, k):
+    """The recorded lines from the script's reset line down to tree node k (node k is record k of the tree file)."""
+    lines = open(tree_file).read().splitlines()
+    out = []
+    while k > 1:
+        r = json.loads(lines[k - 1])
+        out.append(r["e"])
+        k = r["parent"]
+    out.reverse()
+    return out
+
+
+def judge_tree(tree_file, nnodes, timeout, workers="auto", impl="intended"):
+    """J3: TLC walks the tree of recorded steps; VIOLATION / DRIFT records are printed per judged step."""
     cfg = open(os.path.join(SPEC_DIR, "InventoryTrace.cfg")).read().replace('Impl = "intended"', 'Impl = "%s"' % impl)
-    r = vlib.tlc(SPEC_DIR, "InventoryTrace", "T_run.cfg", workers=1, timeout=timeout,
-                 extra_files={"T_run.cfg": cfg}, copy_files={"trace.ndjson": trace_file}, heap="3g")
+    r = vlib.tlc(SPEC_DIR, "InventoryTrace", "T_run.cfg", workers=workers, timeout=timeout,
+                 extra_files={"T_run.cfg": cfg}, copy_files={"trace.ndjson": tree_file}, heap="8g", deadlock=False)
     if not r.ok:
-        raise vlib.Inconclusive("J3: TLC failed on %s: %s" % (trace_file, (r.error or r.out[-2000:])))
+        raise vlib.Inconclusive("J3: TLC failed on the recorded traces: %s" % (r.error or r.out[-2000:]))
+    if r.distinct != nnodes:
+        raise vlib.Inconclusive("J3: recorded steps not all consumed: %d states for %d tree nodes" % (r.distinct, nnodes))
     recs = parse_printed(r.out)
-    done = [x for x in recs if x.get("kind") == "DONE"]
-    if len(done) != 1 or done[0]["lines"] != nlines:
-        raise vlib.Inconclusive("J3: trace %s not fully consumed (%s of %d lines)" % (trace_file, done, nlines))
-    viol = [x for x in recs if x.get("kind") == "VIOLATION"]
-    drift = [x for x in recs if x.get("kind") == "DRIFT"]
-    if done[0]["violations"] != len(viol) or done[0]["drift"] != len(drift):
-        raise vlib.Inconclusive("J3: printed records and counters disagree on %s" % trace_file)
-    return {"file": trace_file, "lines": nlines, "violations": viol, "drift": drift}
+    for x in recs:
+        x["tree"] = tree_file
+    return {"nodes": nnodes, "violations": [x for x in recs if x.get("kind") == "VIOLATION"],
+            "drift": [x for x in recs if x.get("kind") == "DRIFT"], "wall_s": r.wall_s}
 
 
-def judge(trace_files, timeout, par):
-    # many single-worker JVMs side by side: keep each one's helper threads few (read by the java launcher)
-    os.environ.setdefault("JDK_JAVA_OPTIONS", "-XX:ParallelGCThreads=2 -XX:CICompilerCount=2")
+def _build_job(args):
+    files, tree_file, merge = args
+    return build_tree(files, tree_file, merge)
+
+
+def judge(trace_files, workdir, tag, timeout, merge=True, group_lines=400000, par=1):
+    """Group consecutive trace files into trees of about group_lines recorded lines, build the trees in parallel,
+    let TLC judge each tree."""
+    groups, cur, n = [], [], 0
+    for f in trace_files:
+        ln = sum(1 for _ in open(f))
+        if cur and n + ln > group_lines:
+            groups.append(cur)
+            cur, n = [], 0
+        cur.append(f)
+        n += ln
+    if cur:
+        groups.append(cur)
+    jobs = [(g, os.path.join(workdir, "%s-tree-%03d.ndjson" % (tag, i)), merge) for i, g in enumerate(groups)]
+    if len(jobs) == 1:
+        built = [_build_job(jobs[0])]
+    else:
+        with concurrent.futures.ProcessPoolExecutor(max_workers=min(8, len(jobs))) as ex:
+            built = list(ex.map(_build_job, jobs))
+    par = max(1, min(par, len(jobs)))
+    workers = "auto" if par == 1 else max(2, vlib.NCPU // par)
+    deadline = time.time() + timeout
+
+    def one(i):
+        left = deadline - time.time()
+        if left <= 0:
+            raise vlib.Inconclusive("J3 timed out after %ss" % timeout)
+        return judge_tree(jobs[i][1], built[i][0], left, workers=workers)
+
     with concurrent.futures.ThreadPoolExecutor(max_workers=par) as ex:
-        return list(ex.map(lambda f: judge_file(f, timeout), trace_files))
+        results = list(ex.map(one, range(len(jobs))))
+    return {"nodes": sum(r["nodes"] for r in results), "lines": sum(b[1] for b in built),
+            "violations": [v for r in results for v in r["violations"]],
+            "drift": [d for r in results for d in r["drift"]],
+            "wall_s": sum(r["wall_s"] for r in results), "trees": len(jobs)}
 
 
 def read_trace(path):
     return [json.loads(l) for l in open(path) if l.strip()]
-
-
-def script_lines(lines, lineno):
-    """The recorded lines of the script that contains 1-based line `lineno`, up to and including that line."""
-    i = lineno - 1
-    start = i
-    while start > 0 and lines[start].get("ev") != "reset":
-        start -= 1
-    return lines[start:i + 1]
 
 
 def script_of_trace(tl):
@@ -310,18 +397,14 @@ def signature(v, tl):
     return "C12:%s:%s%s" % (what, ev, feature)
 
 
-def collect_violations(results, limit=6):
+def collect_violations(res, limit=6):
     """One vlib.Violation per distinct signature, carrying the shortest failing script."""
     best = {}
-    for res in results:
-        if not res["violations"]:
-            continue
-        lines = read_trace(res["file"])
-        for v in res["violations"]:
-            tl = script_lines(lines, v["line"])
-            sig = signature(v, tl)
-            if sig not in best or len(tl) < len(best[sig][1]):
-                best[sig] = (v, tl)
+    for v in res["violations"][:400]:
+        tl = path_lines(v["tree"], v["node"])
+        sig = signature(v, tl)
+        if sig not in best or len(tl) < len(best[sig][1]):
+            best[sig] = (v, tl)
     out = []
     for sig, (v, tl) in sorted(best.items())[:limit]:
         sc = script_of_trace(tl)
@@ -393,7 +476,7 @@ def binding_selftest(vh, workdir):
         for name, fn, _ in variants:
             for e in variant(name, fn):
                 fh.write(json.dumps(e) + "\n")
-    res = judge_file(cf, 300)
+    res = judge([cf], workdir, "selftest", 300, merge=False)
     result = {}
     okall = True
     for name, _, want in variants:
@@ -456,7 +539,7 @@ def do_replay(vh, path, workdir):
         raise vlib.Inconclusive("no script.ndjson at %s" % path)
     scripts = [json.loads(l) for l in open(sp) if l.strip()]
     pairs = replay(vh, scripts, workdir, 1, "replay", 600)
-    return judge([tf for _, tf in pairs], 600, 1), [tf for _, tf in pairs]
+    return judge(pairs, workdir, "replay", 600), pairs
 
 
 def run(pid, tier, seed, replay_path):
@@ -466,13 +549,13 @@ def run(pid, tier, seed, replay_path):
     ncpu = vlib.NCPU
 
     if replay_path:
-        results, tfs = do_replay(vh, replay_path, work)
-        violations = collect_violations(results)
+        res, tfs = do_replay(vh, replay_path, work)
+        violations = collect_violations(res)
         scripts, steps, classes, nontriv = account(tfs)
         cov = {"states": 0, "transitions": 0, "traces_validated_against_impl": scripts, "evaluations": steps,
                "distinct_nontrivial": nontriv, "rule": "distinct recorded steps that changed the loop state or returned reservations",
                "samples": [json.loads(l) for l in open(os.path.join(replay_path, "script.ndjson"))][:3] if os.path.isdir(replay_path) else [],
-               "exhaustive": False, "drift_steps": sum(len(r["drift"]) for r in results), "binding_selftest": "not run in replay mode",
+               "exhaustive": False, "drift_steps": len(res["drift"]), "binding_selftest": "not run in replay mode",
                "mode": "replay"}
         return vlib.finish(pid, tier, seed, "model_checking", cov, t0, violations, ASSUMPTIONS)
 
@@ -524,8 +607,8 @@ def run(pid, tier, seed, replay_path):
     # J2
     nproc = min(ncpu, 16)
     t1 = time.time()
-    pairs = replay(vh, all_scripts, work, nproc, "mc", 1500 if tier == "thorough" else 150)
-    trace_files = [tf for _, tf in pairs]
+    trace_files = replay(vh, all_scripts, work, nproc, "mc", 1500 if tier == "thorough" else 150,
+                         nchunks=(4 * nproc if tier == "thorough" else nproc))
     vlib.log("[C12] J2 replayed %d scripts on the real service in %.1fs" % (len(all_scripts), time.time() - t1))
     free_files = []
     if tier == "thorough":
@@ -535,15 +618,14 @@ def run(pid, tier, seed, replay_path):
 
     # J3
     t1 = time.time()
-    results = judge(trace_files + free_files, 1500 if tier == "thorough" else 170, par=max(1, min(ncpu, 16)))
-    vlib.log("[C12] J3 judged %d trace files (%d lines) in %.1fs" % (
-        len(results), sum(r["lines"] for r in results), time.time() - t1))
-    violations = collect_violations(results)
-    drift = sum(len(r["drift"]) for r in results)
-    for r in results:
-        for d in r["drift"][:3]:
-            vlib.log("DRIFT %s line %d script %s: %s %s" % (os.path.basename(r["file"]), d["line"], d["script"], d["ev"],
-                                                           json.dumps(d.get("detail"))[:600]))
+    res = judge(trace_files + free_files, work, "all", 1700 if tier == "thorough" else 170,
+                par=(2 if tier == "thorough" else 1))
+    vlib.log("[C12] J3 judged %d recorded lines as %d distinct recorded steps (%d prefix trees) in %.1fs" % (
+        res["lines"], res["nodes"], res["trees"], time.time() - t1))
+    violations = collect_violations(res)
+    drift = len(res["drift"])
+    for d in res["drift"][:5]:
+        vlib.log("DRIFT node %d script %s: %s %s" % (d["node"], d["script"], d["ev"], json.dumps(d.get("detail"))[:600]))
     n_scripts, n_steps, classes, nontriv = account(trace_files)
     f_scripts, f_steps, f_classes, f_nontriv = account(free_files) if free_files else (0, 0, {}, 0)
     needed = ["Reserve.ok", "Reserve.refused", "Unreserve.ok", "Unreserve.refused", "Status.nonempty", "Lookup.ok",
@@ -563,6 +645,7 @@ def run(pid, tier, seed, replay_path):
         "exhaustive": True,
         "exhaustive_note": "every transition TLC generated for the exhaustive configs was replayed on the real service (prefix-subsumed scripts merged); -sim configs are random behaviours",
         "drift_steps": drift,
+        "recorded_lines": res["lines"], "distinct_recorded_steps_judged": res["nodes"],
         "binding_selftest": selftest,
         "configs": configs,
         "constants_for_seed": gen,
